@@ -106,6 +106,7 @@ func OpenAt(backend, dir string) (*Inst, error) {
 		return nil, err
 	}
 	v := vstore.Wrap(raw)
+	v.PoisonAfterTx = backend == BBolt
 	db, err := clover.OpenWithStore(v)
 	if err != nil {
 		return nil, err
@@ -166,6 +167,7 @@ func (i *Inst) Reopen() (bool, error) {
 	}
 	i.Raw = raw
 	i.V = vstore.Wrap(raw)
+	i.V.PoisonAfterTx = i.Backend == BBolt
 	i.DB, err = clover.OpenWithStore(i.V)
 	return true, err
 }
